@@ -8,8 +8,14 @@ import (
 // Check dispatches a property to its engine.
 func Check(prop, tier string) error {
 	switch prop {
-	case "C03", "C04", "C05", "C06", "C07", "C08":
+	case "C03", "C04", "C05", "C06", "C07":
 		return MockCheck(prop, tier)
+	case "C08":
+		// the compiled mocks (engine A), then the library-level half (engine B)
+		if err := MockCheck(prop, tier); err != nil {
+			return err
+		}
+		return GenLibCheck(prop, tier)
 	case "C14":
 		return GenCheck(prop, tier)
 	case "C15", "C17", "C18":
@@ -31,6 +37,8 @@ func Replay(path string) error {
 	switch h.Engine {
 	case "mocksim":
 		return MockReplay(path)
+	case "mocksim-build":
+		return MockBuildReplay(path)
 	case "clisim":
 		return CliReplayFile(path)
 	case "gensim":
